@@ -341,6 +341,36 @@ func Canon(b []byte) ([]byte, error) {
 	return out, nil
 }
 
+// CanonSorted is Canon with, in addition, the fields of every struct sorted by
+// (id, wire type): two messages are equal under it iff every struct instance
+// carries the same fields with the same values, whatever the field order.
+func CanonSorted(b []byte) ([]byte, error) {
+	r := parse(b, false)
+	if r.Verdict == Malformed {
+		return nil, fmt.Errorf("canon: malformed (%s at %d)", r.Reason, r.ErrOff)
+	}
+	sortFields(r.Root)
+	return canonNode(nil, b, r.Root), nil
+}
+
+func sortFields(n *Node) {
+	if n.T == TStruct {
+		sort.SliceStable(n.Fields, func(i, j int) bool {
+			if n.Fields[i].ID != n.Fields[j].ID {
+				return n.Fields[i].ID < n.Fields[j].ID
+			}
+			return n.Fields[i].T < n.Fields[j].T
+		})
+		for _, f := range n.Fields {
+			sortFields(f.V)
+		}
+		return
+	}
+	for _, e := range n.Elems {
+		sortFields(e)
+	}
+}
+
 func canonNode(out, b []byte, n *Node) []byte {
 	switch n.T {
 	case TStruct:
@@ -378,4 +408,111 @@ func canonNode(out, b []byte, n *Node) []byte {
 		return out
 	}
 	return append(out, b[n.Start:n.End]...)
+}
+
+// Contains reports whether message big carries everything message small carries:
+// every struct instance of small has a counterpart in big holding at least the
+// same fields with the same (recursively contained) values; lists and sets match
+// element by element, map entries by key. Extra fields in big are allowed (a
+// forwarding reader may materialise empty defaults). It returns a description of
+// the first thing missing, or "".
+func Contains(big, small []byte) string {
+	rb, rs := parse(big, false), parse(small, false)
+	if rb.Verdict == Malformed {
+		return "the larger message is malformed: " + rb.Reason
+	}
+	if rs.Verdict == Malformed {
+		return "the smaller message is malformed: " + rs.Reason
+	}
+	sortFields(rb.Root)
+	sortFields(rs.Root)
+	return contains(rb.Root, rs.Root, big, small, "")
+}
+
+func contains(bn, sn *Node, bb, sb []byte, path string) string {
+	if bn.T != sn.T {
+		return fmt.Sprintf("%s: wire type %d vs %d", path, bn.T, sn.T)
+	}
+	switch sn.T {
+	case TStruct:
+		used := make([]bool, len(bn.Fields))
+		for _, sf := range sn.Fields {
+			found := false
+			var why string
+			for i, bf := range bn.Fields {
+				if used[i] || bf.ID != sf.ID || bf.T != sf.T {
+					continue
+				}
+				if why = contains(bf.V, sf.V, bb, sb, fmt.Sprintf("%s.%d", path, sf.ID)); why == "" {
+					used[i] = true
+					found = true
+					break
+				}
+			}
+			if !found {
+				if why == "" {
+					why = fmt.Sprintf("%s: field %d (wire type %d) is missing", path, sf.ID, sf.T)
+				}
+				return why
+			}
+		}
+		return ""
+	case TList, TSet:
+		if bn.ET != sn.ET || bn.Count != sn.Count {
+			return fmt.Sprintf("%s: element type/count %d/%d vs %d/%d", path, bn.ET, bn.Count, sn.ET, sn.Count)
+		}
+		if sn.Elems == nil {
+			if !bytes.Equal(bb[bn.Start:bn.End], sb[sn.Start:sn.End]) {
+				return path + ": scalar elements differ"
+			}
+			return ""
+		}
+		for i := range sn.Elems {
+			if why := contains(bn.Elems[i], sn.Elems[i], bb, sb, fmt.Sprintf("%s[%d]", path, i)); why != "" {
+				return why
+			}
+		}
+		return ""
+	case TMap:
+		if bn.KT != sn.KT || bn.ET != sn.ET || bn.Count != sn.Count {
+			return fmt.Sprintf("%s: map types/count differ", path)
+		}
+		used := make([]bool, len(bn.Elems)/2)
+		done := make([]bool, len(sn.Elems)/2)
+		// first pass: identical entries (containment alone is ambiguous when one key
+		// is contained in several), second pass: containment for the rest
+		for i := 0; i+1 < len(sn.Elems); i += 2 {
+			sk, sv := canonNode(nil, sb, sn.Elems[i]), canonNode(nil, sb, sn.Elems[i+1])
+			for j := 0; j+1 < len(bn.Elems); j += 2 {
+				if !used[j/2] && bytes.Equal(sk, canonNode(nil, bb, bn.Elems[j])) && bytes.Equal(sv, canonNode(nil, bb, bn.Elems[j+1])) {
+					used[j/2], done[i/2] = true, true
+					break
+				}
+			}
+		}
+		for i := 0; i+1 < len(sn.Elems); i += 2 {
+			if done[i/2] {
+				continue
+			}
+			found := false
+			for j := 0; j+1 < len(bn.Elems); j += 2 {
+				if used[j/2] {
+					continue
+				}
+				if contains(bn.Elems[j], sn.Elems[i], bb, sb, path) == "" && contains(bn.Elems[j+1], sn.Elems[i+1], bb, sb, path) == "" {
+					used[j/2] = true
+					found = true
+					break
+				}
+			}
+			if !found {
+				return fmt.Sprintf("%s: map entry %d has no counterpart", path, i/2)
+			}
+		}
+		return ""
+	}
+	if !bytes.Equal(bb[bn.Start:bn.End], sb[sn.Start:sn.End]) {
+		return fmt.Sprintf("%s: value %x vs %x", path, bb[bn.Start:bn.End], sb[sn.Start:sn.End])
+	}
+	return ""
 }
